@@ -11,7 +11,7 @@ from ..source import AnalysisError, norm
 from ..cfg import class_named, function_named
 from ..interp import class_members, Interp, Obj, Raised, Env
 from .. import core
-from .C08 import ISA, ident, const, binop, base_stubs, select_ctor, _show
+from .C08 import ISA, ident, const, binop, base_stubs, select_ctor, _show, new_pjt
 
 PJ = 'mindsdb_sql/planner/plan_join.py'
 
@@ -51,6 +51,9 @@ def run(ctx):
     ctx.need(cls is not None, 'PlanJoinTablesQuery not found')
     fn = class_members(cls)
     _CTX.update(tree=tree, src=ctx.src)
+    from . import C08 as _C08
+    _C08._CTX.clear()
+    _C08._CTX.update(tree=tree, src=ctx.src, ctx=ctx, pjt_init=fn.get('__init__'))
     for need in ('process_predictor', 'join_condition_to_columns_map', 'get_table_for_column', 'add_plan_step'):
         ctx.need(need in fn, f'PlanJoinTablesQuery.{need} not found')
     pp = fn['process_predictor']
@@ -151,7 +154,7 @@ def run(ctx):
         stubs['self.get_table_for_column'] = lambda it, c: c.attrs.get('_table') if isinstance(c, Obj) and c.kind == 'Identifier' else None
         it = interp_for(stubs)
         try:
-            got = it.call_function(cm, [Obj('PlanJoinTablesQuery'), model], {}, Env())
+            got = it.call_function(cm, [new_pjt(), model], {}, Env())
         except Raised as r:
             raise AnalysisError(f'join_condition_to_columns_map raises {r.exc_name} on ON {label}')
         rows += 1
@@ -173,12 +176,12 @@ def run(ctx):
     idx = {('m',): t_m, ('t',): t_t, ('proj', 'model'): t_m, ('model',): t_m}
     for parts, want in ((['m', 'a'], t_m), (['M', 'a'], t_m), (['t', 'x'], t_t), (['PROJ', 'Model', 'a'], t_m), (['a'], None), (['zz', 'a'], None)):
         it = interp_for(base_stubs())
-        got = it.call_function(gt, [Obj('PlanJoinTablesQuery', tables_idx=idx), Obj('Identifier', parts=parts, alias=None)], {}, Env())
+        got = it.call_function(gt, [new_pjt(tables_idx=idx), Obj('Identifier', parts=parts, alias=None)], {}, Env())
         rows += 1
         ctx.ob('C14.attribution', '.'.join(parts), got is want,
                f'column {".".join(parts)} is attributed to {got!r}, expected {want!r}: a condition is attributed to a table / model by the alias in front of the '
                f'column, in any letter case', file=PJ, line=gt.lineno)
-    got = interp_for(base_stubs()).call_function(gt, [Obj('PlanJoinTablesQuery', tables_idx=idx), const(1)], {}, Env())
+    got = interp_for(base_stubs()).call_function(gt, [new_pjt(tables_idx=idx), const(1)], {}, Env())
     ctx.ob('C14.attribution', 'constant', got is None, 'a constant belongs to no table', file=PJ, line=gt.lineno)
     # ---- the scope the join planner builds: get_join_sequence + resolve_table interpreted on join members, then get_table_for_column -------------------
     gjs = fn.get('get_join_sequence')
@@ -191,7 +194,7 @@ def run(ctx):
         j = Obj('Join', left=Obj('Join', left=members[0], right=members[1], condition=None, join_type='join', implicit=False, alias=None),
                 right=members[2], condition=None, join_type='join', implicit=False, alias=None)
         planner = Obj('QueryPlanner', default_namespace='mindsdb', databases=['int1', 'int2', 'mindsdb'])
-        self_ = Obj('PlanJoinTablesQuery', planner=planner, tables_idx={}, tables=[])
+        self_ = new_pjt(planner=planner, tables_idx={}, tables=[])
         stubs = base_stubs()
         stubs['self.planner.get_predictor'] = lambda it, n: ({'name': 'sales'} if n.parts[0].lower() == 'mindsdb' else None)
         stubs['copy.deepcopy'] = lambda it, x: x.clone() if isinstance(x, Obj) else x
@@ -251,7 +254,7 @@ def _run_pp(ctx, pp, item, query_in, fn, stack=None):
     stubs['ApplyPredictorStep'] = apply_ctor
     stubs['self.add_plan_step'] = add_plan_step
     stubs['self.join_condition_to_columns_map'] = lambda it, i: {'mapped': True}
-    self_ = Obj('PlanJoinTablesQuery', step_stack=[Obj('FetchDataframeStep', result='R-older'), data_step] if stack is None else stack,
+    self_ = new_pjt(step_stack=[Obj('FetchDataframeStep', result='R-older'), data_step] if stack is None else stack,
                 planner=Obj('QueryPlanner', default_namespace='mindsdb', predictor_namespace='mindsdb'))
     it = interp_for(stubs)
     try:
